@@ -73,15 +73,17 @@ theorem C15_float_round (P : Nat) (hP : 1 ≤ P) (a : Rat) (ha : 0 < a) :
 
 /-- **C15 (floats — text assembly).**  Whatever layout `%g` picks (positional, with leading
     `0.000`, with padding zeros, or exponent notation `d.ddde±XX`), the characters printed for a
-    non-zero `q` are a decimal numeral that reads back to exactly `±m·10^(e-P+1)`, and they are
-    laid out from a digit string of at most `P` digits (trailing zeros stripped). -/
+    non-zero `q` are a decimal numeral that reads back to exactly `±m·10^(e-P+1)`, they show at
+    most `P` significant digits (`sigCount`: digits of the mantissa from the first non-zero one),
+    and they are laid out from a digit string of at most `P` digits (trailing zeros stripped). -/
 theorem C15_float_text (P : Nat) (hP : 1 ≤ P) (q : Rat) (hq : q ≠ 0) :
     readDecimal (fmtRat P q) =
       some ((if q < 0 then -1 else 1) *
         (((sigDigits P |q|).1 : ℚ) * (10:ℚ) ^ ((sigDigits P |q|).2 - (P : ℤ) + 1))) ∧
+    sigCount (fmtRat P q) ≤ P ∧
     ∃ ds : Text, ds ≠ [] ∧ ds.length ≤ P ∧ (∀ c ∈ ds, c.isDigit = true) ∧
       fmtPos P |q| = layoutG P ds (sigDigits P |q|).2 := by
-  refine ⟨fmtRat_reads hP hq, ?_⟩
+  refine ⟨fmtRat_reads hP hq, sigCount_fmtRat hP hq, ?_⟩
   obtain ⟨hne, hall, hlen, _⟩ := shown_digits hP (abs_pos.mpr hq)
   exact ⟨_, hne, hlen, hall, fmtPos_eq P |q|⟩
 
@@ -89,13 +91,14 @@ theorem C15_float_text (P : Nat) (hP : 1 ≤ P) (q : Rat) (hq : q ≠ 0) :
     number of significant digits it means: 0 counts as 1, out-of-range settings mean the default 6)
     and every finite non-zero double `x`, `precisionify_float(x)` in the model is a decimal numeral
     whose value is within half a unit of the `P`-th significant digit of the exact value of `x`:
-    `|readDecimal (fmt N x) − x| ≤ ½·10^(⌊log10|x|⌋ − P + 1)`. -/
+    `|readDecimal (fmt N x) − x| ≤ ½·10^(⌊log10|x|⌋ − P + 1)`, and it shows at most `P`
+    significant digits. -/
 theorem C15_float (N : Int) (x : Float)
     (hnan : x.isNaN = false) (hinf : x.isInf = false) (hz : (x == 0) = false)
     (hq : Num.floatToRat x ≠ 0) :
     let P : Nat := effDigits N
     let q := Num.floatToRat x
-    ∃ t d, precisionifyFloat N x = .ok t ∧ readDecimal t = some d ∧
+    ∃ t d, precisionifyFloat N x = .ok t ∧ readDecimal t = some d ∧ sigCount t ≤ P ∧
       |d - q| ≤ 1 / 2 * (10:ℚ) ^ (floorLog10 |q| - (P : ℤ) + 1) ∧
       (10:ℚ) ^ (floorLog10 |q|) ≤ |q| ∧ |q| < (10:ℚ) ^ (floorLog10 |q| + 1) := by
   intro P q
@@ -112,7 +115,7 @@ theorem C15_float (N : Int) (x : Float)
   have hpos : 0 < |q| := abs_pos.mpr hq
   obtain ⟨h1, h2⟩ := floorLog10_spec hpos
   obtain ⟨_, _, h5, _⟩ := sigDigits_spec hP hpos
-  refine ⟨_, _, hfmt, fmtRat_reads hP hq, ?_, h1, h2⟩
+  refine ⟨_, _, hfmt, fmtRat_reads hP hq, sigCount_fmtRat hP hq, ?_, h1, h2⟩
   by_cases hn : q < 0
   · simp only [hn, if_true]
     rw [abs_of_neg hn] at h5 ⊢
@@ -141,7 +144,8 @@ theorem C15_reentry_exact_partial (names : List Text) (N : Int) (x : Num)
     base-unit text `prettified names dim`; a fraction magnitude is shown as a mixed number (in
     brackets when `brackets_for_frac`), which reads back to the magnitude, followed by the decimal
     approximation with the same unit text.  The re-entry text is the magnitude's re-entry text
-    (fractions bracketed), one space, the unit text. -/
+    (fractions bracketed), one space, the unit text.  The unit text, read word by word against the
+    base-unit names (distinct non-empty words of letters), gives back exactly the dimension vector. -/
 theorem C15_qty (names : List Text) (N : Int) (b ivs : Bool) (mag : Num) (dim : List Int) :
     (∀ q ap, mag = .frac q → approximateFrac N q = .ok ap →
       displayResult names N b ivs (.qty mag dim) =
@@ -152,8 +156,10 @@ theorem C15_qty (names : List Text) (N : Int) (b ivs : Bool) (mag : Num) (dim : 
     (∀ m, (∀ q, mag ≠ .frac q) → displayNum N mag = .ok m →
       displayResult names N b ivs (.qty mag dim) = .ok (m ++ ' ' :: prettified names dim ++ ['\n'])) ∧
     (∀ m, stringifyNum N b mag = .ok m →
-      stringify names N b (.qty mag dim) = .ok (m ++ ' ' :: prettified names dim)) := by
-  refine ⟨?_, ?_, ?_⟩
+      stringify names N b (.qty mag dim) = .ok (m ++ ' ' :: prettified names dim)) ∧
+    (GoodNames names → names.Nodup → dim.length = names.length →
+      readDim names (prettified names dim) = some dim) := by
+  refine ⟨?_, ?_, ?_, fun hg hnd hl => readDim_prettified names hg hnd dim hl⟩
   · rintro q ap rfl h
     refine ⟨?_, ?_, readMixed_prettifyFrac q⟩
     · simp [displayResult, h, bind, Except.bind]
@@ -218,6 +224,16 @@ example : sigDigits 6 (1999999/2) = (100000, 6) ∧ fmtRat 6 (1999999/2) = "1e+0
 example : fmtRat 1 (5/2) = "2".toList ∧ fmtRat 1 (7/2) = "4".toList ∧
     fmtRat 6 (2469135/2) = "1.23457e+06".toList ∧ fmtRat 3 (-1/8192) = "-0.000122".toList := by
   decide +kernel
+
+/-- the hypotheses on the base-unit names hold for Ka's `kg m s A K mol cd eur`, and the unit text
+    of `kg m^2 s^-3 eur^-1` reads back -/
+example : let names := ["kg", "m", "s", "A", "K", "mol", "cd", "eur"].map String.toList
+    GoodNames names ∧ names.Nodup ∧
+    prettified names [1, 2, -3, 0, 0, 0, 0, -1] = "kg m^2 s^-3 eur^-1".toList := by
+  refine ⟨?_, by decide, by decide +kernel⟩
+  intro nm hnm
+  simp only [List.map_cons, List.map_nil, List.mem_cons, List.not_mem_nil, or_false] at hnm
+  rcases hnm with h | h | h | h | h | h | h | h <;> subst h <;> exact ⟨by decide, by decide⟩
 
 /-- the re-entry hypothesis is satisfiable: `(-7/3)` -/
 example : (-7/3 : Rat).den ≠ 1 := by decide +kernel
